@@ -1,8 +1,9 @@
 CONSTANTS
+  Decors = {"none", "ts_readonly", "type_override"}
   Layouts = {"two", "then_word", "word_first", "subject_last", "word_last_only", "between_words"}
   EnumFieldRules = {"none", "camelCase"}
   Idents = {"a", "foo_bar", "r#type", "class", "x_", "http_url_v2", "user_id", "id", "ID", "API_KEY", "userName"}
-  Renames = {"empty", "$ref", "none", "other", "parentId", "foo-bar", "class"}
+  Renames = {"$ref", "none", "other", "parentId", "foo-bar", "class"}
   RuleSet = {"none", "lowercase", "UPPERCASE", "PascalCase", "camelCase", "snake_case", "SCREAMING_SNAKE_CASE", "kebab-case", "SCREAMING-KEBAB-CASE"}
   Spellings = {"merged", "split"}
   EnumRules = {"none", "SCREAMING_SNAKE_CASE"}
